@@ -617,11 +617,21 @@ std::ostream& operator<<(std::ostream& output, const DataPoint& dp)
 // 5. Basic data analysis
 double Arithmetic_Mean(const std::vector<double>& data)
 {
+	if(data.empty())
+	{
+		std::cerr << "Error in libphysica::Arithmetic_Mean(): The list of data is empty." << std::endl;
+		std::exit(EXIT_FAILURE);
+	}
 	return 1.0 * std::accumulate(data.begin(), data.end(), 0.0) / data.size();
 }
 
 double Median(std::vector<double>& data)
 {
+	if(data.empty())
+	{
+		std::cerr << "Error in libphysica::Median(): The list of data is empty." << std::endl;
+		std::exit(EXIT_FAILURE);
+	}
 	if(data.size() % 2 == 0)
 	{
 		const auto median_it1 = data.begin() + data.size() / 2 - 1;
@@ -642,6 +652,11 @@ double Median(std::vector<double>& data)
 
 double Variance(const std::vector<double>& data)
 {
+	if(data.size() < 2)
+	{
+		std::cerr << "Error in libphysica::Variance(): The sample variance needs at least two data points, not " << data.size() << "." << std::endl;
+		std::exit(EXIT_FAILURE);
+	}
 	double mean		= Arithmetic_Mean(data);
 	double variance = 0.0;
 	for(unsigned int i = 0; i < data.size(); i++)
@@ -659,6 +674,11 @@ double Standard_Deviation(const std::vector<double>& data)
 
 std::vector<double> Weighted_Average(std::vector<DataPoint>& data)
 {
+	if(data.size() < 2)
+	{
+		std::cerr << "Error in libphysica::Weighted_Average(): The weighted average and its standard error need at least two data points, not " << data.size() << "." << std::endl;
+		std::exit(EXIT_FAILURE);
+	}
 	double sum			= 0.0;
 	double wsum			= 0.0;
 	long unsigned int N = data.size();
